@@ -61,6 +61,10 @@ def parse_strace(path, udir):
         elif sc == "close":
             f = int(args.split(",")[0]) if args.split(",")[0].strip().isdigit() else None
             fd.pop(f, None)
+        elif sc in ("unlink", "unlinkat") and ret == 0:
+            pm = re.search(r'"([^"]+)"', args)
+            if pm and os.path.dirname(pm.group(1)) == udir and os.path.basename(pm.group(1)) in NAMES:
+                ops.append(("FRemove", NAMES[os.path.basename(pm.group(1))]))
         elif sc in ("rename", "renameat", "renameat2") and ret == 0:
             ps = re.findall(r'"([^"]+)"', args)
             if len(ps) == 2 and os.path.dirname(ps[0]) == udir and os.path.basename(ps[0]) in NAMES and os.path.basename(ps[1]) in NAMES:
@@ -88,6 +92,8 @@ def crash_states(old, new, prog, max_per_write):
             s[o[1]] = b""
         elif o[0] == "FRename":
             s[o[2]] = s.get(o[1])
+            s[o[1]] = None
+        elif o[0] == "FRemove":
             s[o[1]] = None
         states.append((f"after op {i} ({' '.join(map(str, o[:3]))})", dict(s)))
     return states
@@ -144,7 +150,7 @@ def run(tier, seed):
                     st, d0 = s.dump()
                     target = d0["saves_done"] + n
                     t0 = time.time()
-                    while time.time() - t0 < 8:
+                    while time.time() - t0 < 15:
                         st, dd = s.dump()
                         if st == "ok" and dd["saves_done"] >= target:
                             return dd
@@ -159,7 +165,7 @@ def run(tier, seed):
                 st, new_dump = s.dump()
                 # trace the next saves
                 tr = os.path.join(wd, f"strace{pi}.txt")
-                p = subprocess.Popen(["strace", "-f", "-p", str(s.proc.pid), "-e", "trace=openat,open,creat,write,close,rename,renameat,renameat2", "-o", tr],
+                p = subprocess.Popen(["strace", "-f", "-p", str(s.proc.pid), "-e", "trace=openat,open,creat,write,close,rename,renameat,renameat2,unlink,unlinkat", "-o", tr],
                                      stdout=subprocess.DEVNULL, stderr=subprocess.DEVNULL)
                 time.sleep(0.3)
                 wait_saves(2)
@@ -215,17 +221,24 @@ def run(tier, seed):
                         return (what, f"the restored learned counts {dd['frequencies']} are neither the previously saved nor the newly saved version", None)
                     if dd["user_entries"] not in ok_user:
                         return (what, f"the restored user dictionary {dd['user_entries']} is neither the previously saved nor the newly saved version", None)
-                    if idx % 4 == 0:        # periodic saving keeps working afterwards
+                    leftover = any(st_.get(k) is not None for k in ("TmpFreq", "TmpDic"))
+                    if idx % 4 == 0 or leftover:        # periodic saving keeps working afterwards: a word registered now reaches user.dic
+                        s2.call("RegisterWord", {"kind": "CommonNoun", "reading": "あいう", "word": "亜crash"}, timeout=10)
+                        s2.quiesce()
+                        stt, d0 = s2.dump()
+                        base_saves = d0["saves_done"] if stt == "ok" else 0
                         t0 = time.time()
-                        while time.time() - t0 < 5:
+                        while time.time() - t0 < 12:
                             stt, d3 = s2.dump()
-                            if stt == "ok" and d3["saves_done"] >= 2:
+                            if stt == "ok" and d3["saves_done"] >= base_saves + 2:
                                 break
                             time.sleep(0.05)
                         time.sleep(0.1)
                         after = snapshot(cd)
                         if after["FinFreq"] is None or after["FinDic"] is None:
                             return (what, "after the restart the periodic save does not write the files any more (saving is disabled)", None)
+                        if "亜crash".encode() not in after["FinDic"]:
+                            return (what, "after the restart a newly registered word never reaches user.dic: periodic saving no longer works", None)
                 finally:
                     s2.stop()
                     shutil.rmtree(cd, ignore_errors=True)
@@ -246,7 +259,7 @@ def run(tier, seed):
         "evaluations": n_states, "distinct_nontrivial": n_partial,
         "traces_validated_against_impl": len(traced),
         "rule": "for random old / new learned states: the real server's save is traced with strace and compared with the extracted program; then every operation boundary and a set of byte-granular partial lengths of every write "
-                "is materialised as a directory, a real server is started on it, its restored state must be the old or the new version of each file, and (every fourth state) periodic saving must still write both files; "
+                "is materialised as a directory, a real server is started on it, its restored state must be the old or the new version of each file, and (every fourth state, and every state with a leftover temporary file) a word registered after the restart must reach user.dic through the periodic save; "
                 "non-trivial = the crash point lies strictly inside a write",
         "samples": traced[:2],
     }
